@@ -333,7 +333,10 @@ class Vector(AutoSerialize):
         result = []
         for idx in np.ndindex(*[len(i) for i in indices_arrays]):
             src_idx = tuple(ind[i] for ind, i in zip(indices_arrays, idx))
-            result.append(self._data[src_idx[0]][src_idx[1]])
+            ref = self._data
+            for i in src_idx:
+                ref = ref[i]
+            result.append(ref)
 
         return result
 
